@@ -50,8 +50,8 @@ theorem password_inputs_are_seeds : NA.C17.unseededPasswordInputs = [] := by dec
 /-- … and the password sources are exactly two: the terminal (`askPassword`: `term.ReadPassword`, taken
 with `drc -u USER`) and the credentials file (`getSystemPassword`: `os.ReadFile`). -/
 theorem password_inputs_exact :
-    NA.C17.seededInputs = [1756730485, 2557253177] ∧
-    (NA.C17.inputKinds.filter fun p => p.2.isPassword).map (·.1) = [1756730485, 2557253177] := by decide
+    NA.C17.seededInputs = [3900004185, 1574504650] ∧
+    (NA.C17.inputKinds.filter fun p => p.2.isPassword).map (·.1) = [3900004185, 1574504650] := by decide
 
 /-- There is no `-p` flag and no password environment variable: these are all flags and all
 environment variables of the module, by name. -/
